@@ -777,18 +777,25 @@ Fixpoint ctor_fields (fs : list tfield) (vs : list tval) : res (list tval) :=
   | _, _ => Ok []
   end.
 
-Definition class_from_text (c : pctx) (fs : list tfield) (st : tstate) : res (list tval * tstate) :=
+(* chk: the checks of the constructor that relate several fields (DS digest length by digest type, ...);
+   they run after the per-field conversions, still inside cls.from_text, i.e. before the end-of-line check *)
+Definition class_from_text (c : pctx) (fs : list tfield) (chk : list tval -> res unit) (st : tstate)
+  : res (list tval * tstate) :=
   do rs <- parse_fields c fs st;
   do vs <- ctor_fields fs (fst rs);
+  do _ <- chk vs;
   Ok (vs, snd rs).
+
+Definition no_check (vs : list tval) : res unit := Ok tt.
 
 (* dns.rdata.from_text for a schema type; fw/tw = wire codec for the generic-syntax branch *)
 Definition record_from_text_gen (fw : list Z -> res (list tval)) (tw : list tval -> res (list Z))
-           (c : pctx) (fs : list tfield) (text : list Z) : res (list tval) :=
-  rdata_from_text (class_from_text c fs) fw tw text.
+           (c : pctx) (fs : list tfield) (chk : list tval -> res unit) (text : list Z) : res (list tval) :=
+  rdata_from_text (class_from_text c fs chk) fw tw text.
 
-Definition record_from_text (c : pctx) (fs : list tfield) (text : list Z) : res (list tval) :=
-  record_from_text_gen (fun _ => Internal iNotModelled) (fun _ => Internal iNotModelled) c fs text.
+Definition record_from_text (c : pctx) (fs : list tfield) (chk : list tval -> res unit) (text : list Z)
+  : res (list tval) :=
+  record_from_text_gen (fun _ => Internal iNotModelled) (fun _ => Internal iNotModelled) c fs chk text.
 
 Definition record_to_text (st : style) (fs : list tfield) (vs : list tval) : res (list Z) :=
   print_fields st fs vs.
@@ -803,6 +810,9 @@ Definition schema_of (rdtype : Z) : option (list tfield) :=
   else if rdtype =? 105 then Some [u16; FAddr false]                                (* L32 *)
   else if rdtype =? 51 then Some [u8; u8; u16; FHexTok]                             (* NSEC3PARAM *)
   else if (rdtype =? 48) || (rdtype =? 60) then Some [u16; u8; FAlg; FB64Rest true] (* DNSKEY CDNSKEY *)
+  else if (rdtype =? 43) || (rdtype =? 59) || (rdtype =? 32769)
+  then Some [u16; FAlg; u8; FHexRest]                                             (* DS CDS DLV *)
+  else if rdtype =? 63 then Some [u32; u8; u8; FHexRest]                           (* ZONEMD *)
   else if rdtype =? 257 then Some [u8; FTag; FQStr 0 0 false]                       (* CAA *)
   else if rdtype =? 47 then Some [FName; FBitmap]                                   (* NSEC *)
   else if rdtype =? 62 then Some [u32; u16; FBitmap]                                (* CSYNC *)
@@ -835,6 +845,39 @@ Definition schema_of (rdtype : Z) : option (list tfield) :=
           || (rdtype =? 261) || (rdtype =? 262)
   then Some [FTxtRest]                                     (* TXT SPF AVC NINFO RESINFO WALLET *)
   else None.
+
+(* DSBase.__init__: _digest_length_by_type (CDS adds 0: 1, the "delete" form); digest type 0 is reserved *)
+Definition ds_digest_len (cds : bool) (dt : Z) : option nat :=
+  if dt =? 1 then Some 20%nat else if dt =? 2 then Some 32%nat else if dt =? 3 then Some 32%nat
+  else if dt =? 4 then Some 48%nat else if cds && (dt =? 0) then Some 1%nat else None.
+
+Definition ds_check (cds : bool) (vs : list tval) : res unit :=
+  match vs with
+  | [_; _; VInt dt; VBytes d] =>
+      match ds_digest_len cds dt with
+      | Some n => if Nat.eqb (length d) n then Ok tt else Internal iValueError
+      | None => if dt =? 0 then Internal iValueError else Ok tt
+      end
+  | _ => Internal eBadCase
+  end.
+
+(* ZONEMD.__init__: scheme 0 and hash algorithm 0 are reserved; SHA384 / SHA512 fix the digest length *)
+Definition zonemd_check (vs : list tval) : res unit :=
+  match vs with
+  | [_; VInt scheme; VInt h; VBytes d] =>
+      if scheme =? 0 then Internal iValueError
+      else if h =? 0 then Internal iValueError
+      else if (h =? 1) && negb (Nat.eqb (length d) 48) then Internal iValueError
+      else if (h =? 2) && negb (Nat.eqb (length d) 64) then Internal iValueError
+      else Ok tt
+  | _ => Internal eBadCase
+  end.
+
+Definition schema_chk (rdtype : Z) : list tval -> res unit :=
+  if (rdtype =? 43) || (rdtype =? 32769) then ds_check false
+  else if rdtype =? 59 then ds_check true
+  else if rdtype =? 63 then zonemd_check
+  else no_check.
 
 (* ---------- harness interface ---------- *)
 Definition obs_of_val (v : tval) : obs :=
@@ -919,7 +962,7 @@ Definition run_text (c : obs) : obs :=
   | L [I 41; I rdtype; t; ctx] =>
       match schema_of rdtype, pctx_of_obs ctx, text_of_obs t with
       | Some fs, Some pc, Some s =>
-          TokM.obs_of_res (fun vs => L (map obs_of_val vs)) (record_from_text pc fs s)
+          TokM.obs_of_res (fun vs => L (map obs_of_val vs)) (record_from_text pc fs (schema_chk rdtype) s)
       | _, _, _ => E eBadCase
       end
   | _ => TokM.run c
